@@ -1023,17 +1023,35 @@ def shrink_core(case, budget=12):
 # ----------------------------------------------------------------------------
 
 def listed_findings(ctx):
-    findings = ctx.findings
-    if not findings:      # not merged into known_findings.json yet: read this work package's own list
-        own = C.VERIF / "known_findings.d" / "C20.json"
-        if own.exists():
-            import json
-            findings = [e for e in json.loads(own.read_text()) if e.get("property") == "C20"]
+    """the entries of known_findings.json for C20, plus those of this work package's own list that are not merged yet"""
+    import json
+    findings = list(ctx.findings or [])
+    own = C.VERIF / "known_findings.d" / "C20.json"
+    if own.exists():
+        have = {e.get("id") for e in findings}
+        findings += [e for e in json.loads(own.read_text()) if e.get("property") == "C20" and e.get("id") not in have]
     return findings
+
+
+def replay_map_witness(f):
+    """the calls of a Utils.map finding, judged WITHOUT the range guard: each must return a finite number within
+    the float tolerance of the exact affine map; -> list of failing calls"""
+    calls = f["witness"]["calls"]
+    res = C.run_impl("c20_impl.py", {"cases": calls})
+    bad = []
+    for c, r in zip(calls, res):
+        x, fl, fh, tl, th = (frac(v) for v in c[1:6])
+        want = tl + (x - fl) * (th - tl) / (fh - fl)
+        if r[0] != "ok" or not is_num(r[1]) or not close(frac(r[1]), want, abs(tl) + abs(want)):
+            bad.append([c, r[:3]])
+    return bad
 
 
 def replay_witness(f):
     """run the witness history of a listed entry on the real code; -> (case, impl result, oracle failures)"""
+    if "calls" in f["witness"]:
+        bad = replay_map_witness(f)
+        return f["witness"]["calls"], None, bad
     case = ["core", f["witness"]["ops"], None]
     r = C.run_impl("c20_impl.py", {"cases": [case]})[0]
     probe = C.Ctx("C20", "quick", 0)
